@@ -66,7 +66,8 @@ def normalized_tokens(src):
 #  ("whilelet", name, e, body) for `while let Some(name) = e`; ("loop", body); statement ("break",)
 #  ("iflet", name, e, then_block, else_block_or_None) for `if let Some(name) = e`; ("vecrep", elem, count) for
 #  `vec![elem; count]`; ("index", a, ("rangeto", k) | ("rangefrom", j) | ("range", j, k)) for slices;
-#  ("veclit", [es]) for `vec![a, b, ..]` / `vec![]`; ("refmut", e) for `&mut e` (only as an argument for a `&mut` parameter)
+#  ("veclit", [es]) for `vec![a, b, ..]` / `vec![]`; ("refmut", e) for `&mut e` (only as an argument for a `&mut` parameter
+#  or as the scrutinee of `if let Some(x) = &mut place`); statement ("panic",) for `panic!(..)` as a statement / in tail position
 # ---------------------------------------------------------------------------------------------
 
 BINPREC = {
@@ -478,6 +479,11 @@ class Parser:
                     stmts.append(("expr", e))
                 continue
             e = self.parse_expr()
+            if e[0] == "macro" and e[1] == "panic" and (self.at("op", ";") or self.at("op", "}")):
+                if self.at("op", ";"):                       # panic!(..) as a statement or in tail position: a jump
+                    self.next()
+                stmts.append(("panic",))
+                continue
             tok = self.peek()
             if tok[0] == "op" and tok[1] in ASSIGN_OPS:
                 self.next()
